@@ -2,5 +2,6 @@ SPECIFICATION Spec
 CONSTANTS
   MaxLen = 400
 INVARIANT PadOK
+INVARIANT RmdPadOK
 INVARIANT EmitReplay
 CHECK_DEADLOCK FALSE
